@@ -6,6 +6,8 @@ let channels : (string * ((string * string) list -> string)) list = [
   ("flags", Chan_flags.run_flags);
   ("jprops", Chan_flags.run_jprops);
   ("visit", Chan_visit.run);
+  ("dfs", Chan_dfs.run_dfs);
+  ("dfsalgo", Chan_dfs.run_dfsalgo);
 ]
 
 let () =
